@@ -59,3 +59,23 @@ Proof.
   apply strip_suffix_some in E2. subst a.
   now rewrite trim_snoc_ws by reflexivity.
 Qed.
+
+Lemma parse_i64_digit_head : forall c r, is_digit c = true ->
+  parse_i64 (c :: r)
+  = match parse_nat_str (c :: r) with
+    | Some n => if in_i64 (Z.of_N n) then Some (Z.of_N n) else None
+    | None => None
+    end.
+Proof.
+  intros c r Hc. unfold parse_i64. destruct c as [|p]; [discriminate|].
+  repeat (destruct p as [p|p|]; try reflexivity; try discriminate Hc).
+Qed.
+
+Lemma str_eqb_eq : forall a b, str_eqb a b = true -> a = b.
+Proof.
+  induction a as [|x a IH]; intros [|y b] H; cbn in H; try discriminate; [reflexivity|].
+  apply andb_true_iff in H as [H1 H2]. apply N.eqb_eq in H1. subst. f_equal. now apply IH.
+Qed.
+
+Lemma str_eqb_refl : forall a, str_eqb a a = true.
+Proof. induction a as [|x a IH]; [reflexivity|]. cbn. now rewrite N.eqb_refl, IH. Qed.
